@@ -23,7 +23,7 @@ MIN_EVENTS = {"matrices loaded and compared": 1000,
               "values imputed": 200, "infinities replaced": 200}
 TIMEOUT = {"quick": 900, "thorough": 3500}
 N_MAT = {"quick": 110, "thorough": 8000}     # matrices per shard
-N_EXPORT = {"quick": 1, "thorough": 12}       # exports per shard
+N_EXPORT = {"quick": 2, "thorough": 12}       # exports per shard
 RULE = ("case = (training matrix written by the harness: 2..40 rows, NaN / "
         "inf patterns by row, column and response class, all-NaN columns, "
         "missing classes) x requested feature subset x which_type x the 3 "
@@ -263,6 +263,27 @@ def export_case(rec, rng, cid, scratch):
         extra = (idnt2, rate2)
     else:
         extra = None
+    dropped = None
+    if extra is None and len(curves) >= 2 and rng.random() < .7:
+        # one stored entry is incomplete (its columns were never written,
+        # e.g. an interrupted save of an older version): it is ignored as a
+        # whole - no sample row and no response for it
+        import h5py
+        import warnings as _w
+        with h5py.File(h5, "a") as hf:
+            keys = list(hf["analysis"])
+            kdel = keys[int(rng.integers(len(keys)))]
+            en_del = int(hf["analysis"][kdel].attrs["enum"]) \
+                if "enum" in hf["analysis"][kdel].attrs else None
+            if en_del is None:
+                en_del = int(kdel.rsplit("_", 1)[-1])
+            del hf["analysis"][kdel]["fit"]
+        dropped = en_del
+        curves = [c_ for c_ in curves if c_[0] != en_del]
+        ncur -= 1
+        rec.event("exports from a container with an incomplete entry")
+        _w.simplefilter("ignore")
+        rm = RateManager(h5)
     out = scratch / ("exp_ts_%d_%d" % (cid[0], cid[1]))
     try:
         rm.export_training_set(out)
@@ -284,7 +305,11 @@ def export_case(rec, rng, cid, scratch):
     if extra is not None:
         by_enum[(f2.name, 0)] = (extra[1], extra[0])
         ncur += 1
-    case = {"id": cid, "kind": "export", "order": order}
+    case = {"id": cid, "kind": "export", "order": order,
+            "incomplete entry": dropped}
+    rec.check(np.atleast_1d(y).size == X.shape[0], "export/not-paired",
+              "exported set has %d responses for %d sample rows"
+              % (np.atleast_1d(y).size, X.shape[0]), case)
     rec.check(X.shape == (ncur, len(names)) and
               list(names) == IF.get_feature_names(), "export/shape",
               "exported set has shape %s for %d curves" % (X.shape, ncur),
